@@ -186,4 +186,13 @@ def c_rope(cex, obs):
     return False, 'native rope observers agree with the flat strings'
 
 
-CONFIRM = {'rope': c_rope, 'tree': c_tree, 'decode': c_decode, 'decode_bytes': c_decode, 'decoder_step': c_decode, 'roundtrip': c_roundtrip, 'lines_only': c_lines_only, 'vlq': c_vlq}
+def c_threads(cex, obs):
+    if 'was replaced' not in cex.get('oracle', ''): return False, 'no native forcing harness for this interleaving class (only cache-entry replacement is replayed on real threads)'
+    t = cex.get('tree', {})
+    if t.get('kind') != 'cached': return False, 'native harness covers a CachedSource root only'
+    for prof, o in obs.items():
+        if o.get('replaced'): return True, '%s build, real threads: the cached SourceMap moved from %#x to %#x while a reference into it was held - the entry was replaced' % (prof, o['borrowed_name_ptr_before'], o['borrowed_name_ptr_after'])
+    return False, 'native threads: the cached entry was not replaced'
+
+
+CONFIRM = {'threads': c_threads, 'rope': c_rope, 'tree': c_tree, 'decode': c_decode, 'decode_bytes': c_decode, 'decoder_step': c_decode, 'roundtrip': c_roundtrip, 'lines_only': c_lines_only, 'vlq': c_vlq}
